@@ -448,6 +448,11 @@ func (ck *Check) classification(rule string, want map[int]string) {
 		return
 	}
 	dry := Or(Atom(gl), Atom(gr))
+	// the classifier keeps its signature and hands its body to an inner function (dry mode read once
+	// and passed as a flag): the appends are read there, with the parameters bound at the call
+	if g, ch := ck.delegate(fn); g != nil {
+		fn, ctx = g, ch
+	}
 	// the return instruction(s)
 	var rets []*ssa.Return
 	for _, b := range fn.Blocks {
@@ -656,6 +661,11 @@ func (ck *Check) classificationComplete(rule string) {
 		return
 	}
 	dry := Or(Atom(gl), Atom(gr))
+	// the classifier keeps its signature and hands its body to an inner function (dry mode read once
+	// and passed as a flag): the appends are read there, with the parameters bound at the call
+	if g, ch := ck.delegate(fn); g != nil {
+		fn, ctx = g, ch
+	}
 	// the appends to result 0, grouped by the loop (the element) they classify
 	type group struct {
 		n    *Term
